@@ -7,7 +7,7 @@ D = Decimal
 NAMES = ["WETH", "USDT", "DAI", "WBTC", "LINK"]
 BASE_PRICE = {"WETH": "2000", "USDT": "1", "DAI": "1.0003", "WBTC": "41000", "LINK": "14.7"}
 DECS = {"WETH": 18, "USDT": 6, "DAI": 18, "WBTC": 8, "LINK": 18}
-FR = ["0", "0.000000001", "0.1", "0.5", "0.9", "1", "1.000001", "10"]
+FR = ["0", "0.000000001", "0.1", "0.5", "0.9", "0.999995", "1", "1.000001", "1.00005", "10"]
 
 
 def dstr(x: Decimal) -> str:
@@ -155,4 +155,6 @@ def st_case(draw, profile="chaos", max_bars=8, max_ops=5):
                 "ops": ops,
             }
         )
-    return {"tokens": tokens, "wallet": wallet, "bars": bars}
+    # a broker may be configured to let the wallet go negative (Broker(allow_negative_balance=True)): debits are then exact
+    allow_negative = profile == "accrual" and draw(st.integers(0, 3)) == 0
+    return {"tokens": tokens, "wallet": wallet, "bars": bars, "allow_negative": allow_negative}
